@@ -85,8 +85,19 @@ double verif_toReal(long long q)
 #define ARR(p) __CPROVER_object_upto(p, ACAP * sizeof(*(p)))
 #define OUT_ALL __CPROVER_object_upto(out, 16 * sizeof(int))
 
+/* restricted variants of instances whose full contract fails on the unchanged tree (see units/lpmod_findings):
+ * NOKEPT = no basis is kept outside the solver; NOT_ONLYREAL = a rational LP exists */
+#if defined(NOKEPT)
+#define REQ_VARIANT __CPROVER_requires(loaded || !hasBasis)
+#elif defined(NOT_ONLYREAL)
+#define REQ_VARIANT __CPROVER_requires(syncmode != SYNCMODE_ONLYREAL)
+#else
+#define REQ_VARIANT
+#endif
+
 /* shape of the state every instance starts from (all arrays are fresh objects of the model capacity) */
 #define REQ_STATE \
+   REQ_VARIANT \
    __CPROVER_requires(0 <= nr && nr <= CAP && 0 <= nc && nc <= CAP && 0 <= qnr && qnr <= CAP && 0 <= qnc && qnc <= CAP) \
    __CPROVER_requires(0 <= nrt && nrt <= CAP && 0 <= nct && nct <= CAP && 0 <= nbr && nbr <= CAP && 0 <= nbc && nbc <= CAP && 0 <= n && n <= CAP) \
    __CPROVER_requires(SYNCMODE_ONLYREAL <= syncmode && syncmode <= SYNCMODE_MANUAL) \
